@@ -613,8 +613,9 @@ def has_kind(e, kind):
 
 
 def nested_loop_match(prog):
-    """Is there a DO loop whose bounds (lo, hi, step as written) equal the range of an array-valued
-    assignment target inside it?  (whole arrays and `:` count with their declared bounds)"""
+    """Is there an array-valued assignment inside a DO loop over v whose target range equals the bounds (lo, hi,
+    step as written) of SOME loop over the same variable v in the routine?  (whole arrays and `:` count with
+    their declared bounds).  resolve_vector_notation would then pick v as index of the new loop."""
     def ranges(u, lhs):
         d = next((x for x in u['decls'] if x['name'] == lhs['name']), None)
         if d is None or not d['dims']:
@@ -628,20 +629,23 @@ def nested_loop_match(prog):
                             '' if c['st'] == NONE else F.rx(c['st'])))
         return out
 
-    def walk(u, ss, loops):
+    def walk(u, ss, active, loops):
         for s in ss:
-            if s['s'] == 'assign' and any(r in loops for r in ranges(u, s['lhs'])):
+            if s['s'] == 'assign' and any((v, r) in loops for r in ranges(u, s['lhs']) for v in active):
                 return True
-            inner = loops
-            if s['s'] == 'do':
-                inner = loops + [(F.rx(s['lo']), F.rx(s['hi']), '' if s['st'] == NONE else F.rx(s['st']))]
+            inner = active + [s['var']] if s['s'] == 'do' else active
             for key in ('body', 'els', 'default'):
-                if isinstance(s.get(key), list) and walk(u, s[key], inner):
+                if isinstance(s.get(key), list) and walk(u, s[key], inner, loops):
                     return True
-            if any(walk(u, b, inner) for b in s.get('bodies', [])) or any(walk(u, c['body'], inner) for c in s.get('cases', [])):
+            if any(walk(u, b, inner, loops) for b in s.get('bodies', [])) or any(walk(u, c['body'], inner, loops) for c in s.get('cases', [])):
                 return True
         return False
-    return any(walk(u, u['body'], []) for u in prog['units'])
+    for u in prog['units']:
+        loops = {(s['var'], (F.rx(s['lo']), F.rx(s['hi']), '' if s['st'] == NONE else F.rx(s['st'])))
+                 for s in F._flat(u['body']) if s['s'] == 'do'}
+        if walk(u, u['body'], [], loops):
+            return True
+    return False
 
 
 def sec_forms(prog):
